@@ -101,6 +101,12 @@ func genC12Lin(r *Rng, p *Plan) {
 		par = append(par, Op{ID: 1000 + c, Kind: "client", B: c, Par: seq})
 	}
 	p.Ops = []Op{{ID: 999, Kind: "par", Par: par}}
+	if r.Chance(0.4) {
+		// session timeouts configured but far away, and the store has been in use for a while: whatever housekeeping
+		// the store does for timeouts (none on the unchanged tree) runs concurrently with the clients
+		p.Ops[0].S = "timeouts-far-away"
+		p.Ops[0].D = r.Range(61, 600)
+	}
 }
 
 func runC12Lin(p *Plan) *Result {
@@ -113,6 +119,12 @@ func runC12Lin(p *Plan) *Result {
 	if len(p.Ops) == 0 || len(p.Ops[0].Par) == 0 {
 		res.Infra = "empty concurrent plan"
 		return res
+	}
+	if p.Ops[0].S == "timeouts-far-away" {
+		store = oidc.NewMemoryStore(&oidc.Clock{}, 24*time.Hour, 24*time.Hour)
+		_ = store.SetTokenResponse(ctx, "sess-warm-up", &oidc.TokenResponse{IDToken: "w"})
+		time.Sleep(time.Duration(p.Ops[0].D) * time.Second)
+		res.Probes["histories-with-timeouts-configured"]++
 	}
 	clients := p.Ops[0].Par
 	type rec struct {
